@@ -24,6 +24,7 @@ func init() {
 
 func runC06(c *Ctx) {
 	w := c.W
+	c06Extras(c)
 	fn := w.Fn(fnParseCertInt)
 	if fn == nil {
 		c.Undecided("R-PROV", fnParseCertInt, "anchor", "-", "not found")
